@@ -72,6 +72,11 @@ def isolate_user_dirs():
     for k in ("XDG_DATA_HOME", "XDG_CONFIG_HOME", "XDG_CACHE_HOME", "XDG_STATE_HOME"):
         os.environ[k] = os.path.join(d, k.lower())
         os.makedirs(os.environ[k], exist_ok=True)
+        # the library creates <dir>/activitywatch/<module> on first use with a check-then-create that is not safe when
+        # several freshly forked workers do it at the same moment (seen once as FileExistsError in a worker on a fresh
+        # sandbox): the directories exist before any worker starts
+        for sub_ in ("activitywatch", os.path.join("activitywatch", "aw-server"), os.path.join("activitywatch", "log"), os.path.join("activitywatch", "aw-core")):
+            os.makedirs(os.path.join(os.environ[k], sub_), exist_ok=True)
     os.environ["HOME"] = d
 
 
